@@ -523,7 +523,10 @@ def chk_merkle(hexes, hname):
     l = [bytes.fromhex(h) for h in hexes]
     H = dsha if hname == "dsha" else sha
     Himpl = double_sha256 if hname == "dsha" else sha
-    got = merkle(list(l), Himpl)
+    arg_list = list(l)
+    got = merkle(arg_list, Himpl)
+    if arg_list != l:
+        return {"kind": "merkle-mutates-its-argument", "n": len(l)}
     exp = ref_root(l, H)
     if got != exp:
         return {"kind": "merkle-root-differs-from-definition", "n": len(l), "got": got.hex(), "expected": exp.hex()}
